@@ -317,9 +317,9 @@ func (tc *tcpClient) reply(id uint32, d time.Duration) (*hotline.Transaction, bo
 				return true
 			}
 		}
-		return false
+		return tc.dead // no reply will come any more
 	})
-	return found, ok
+	return found, ok && found != nil
 }
 
 func (tc *tcpClient) request(id uint32, ty hotline.TranType, d time.Duration, fields ...hotline.Field) (*hotline.Transaction, bool) {
@@ -438,8 +438,35 @@ func hostileControl(r *RNG, src string, port int) (string, bool) {
 	}
 	defer c.Close()
 	var script bytes.Buffer
-	kind := r.Intn(7)
+	kind := r.Intn(8)
+	linger := time.Duration(0)
 	switch kind {
+	case 7: // a logged-in client that sets its own shared state (name, icon, options, automatic reply) to odd values and stays a while
+		script.Write(clientHandshake)
+		odd := func() []hotline.Field {
+			var fs []hotline.Field
+			if r.Chance(60) {
+				fs = append(fs, fld(hotline.FieldUserName, r.Text(r.Pick(0, 0, 1, 31, 255, 1000))))
+			}
+			if r.Chance(60) {
+				fs = append(fs, fld(hotline.FieldUserIconID, r.Bytes(r.Pick(0, 1, 2, 3, 4, 5))))
+			}
+			if r.Chance(50) {
+				fs = append(fs, fld(hotline.FieldOptions, r.Bytes(r.Pick(0, 1, 2, 2, 3))))
+			}
+			if r.Chance(30) {
+				fs = append(fs, fld(hotline.FieldAutomaticResponse, r.Text(r.Pick(0, 1, 40, 3000))))
+			}
+			return fs
+		}
+		script.Write(encTran(loginTran(1, "guest", "", odd()...)))
+		if r.Chance(70) {
+			script.Write(encTran(mkTran(hotline.TranAgreed, 2, odd()...)))
+		}
+		for i, n := 0, r.Intn(3); i < n; i++ {
+			script.Write(encTran(mkTran(hotline.TranSetClientUserInfo, uint32(3+i), odd()...)))
+		}
+		linger = time.Duration(500+r.Intn(900)) * time.Millisecond
 	case 6: // a client allowed to disconnect users names targets nobody holds (ids >= 0x4000, odd lengths), with and without ban options
 		script.Write(clientHandshake)
 		script.Write(encTran(loginTran(1, "kicker", "kk", fld(hotline.FieldUserName, []byte("k")))))
@@ -511,7 +538,7 @@ func hostileControl(r *RNG, src string, port int) (string, bool) {
 	// read whatever comes for a short while
 	got := make([]byte, 0, 256)
 	buf := make([]byte, 4096)
-	c.SetReadDeadline(time.Now().Add(time.Duration(150+r.Intn(250)) * time.Millisecond))
+	c.SetReadDeadline(time.Now().Add(time.Duration(150+r.Intn(250))*time.Millisecond + linger))
 	for {
 		n, err := c.Read(buf)
 		got = append(got, buf[:n]...)
@@ -677,7 +704,7 @@ func hostileTransfer(r *RNG, src string, port int) (string, bool) {
 
 func init() {
 	props["C03"] = func(x *Ctx) {
-		x.rule = "one case = one child-process server + sentinel client + a batch of hostile connections (control: garbage, mutated handshakes, bad logins, logged-in guest/power clients sending 46 transaction types, a client holding the disconnect-users privilege naming user ids nobody holds (with/without ban options, odd id lengths) in disconnect / client-info / instant-message / invite requests, with hostile/plausible field mixes incl. the known panic triggers, cuts mid-transaction; transfer port: garbage preambles, genuine reference numbers followed by corrupt flattened-file objects, short info forks, folder-download resume data of odd lengths, folder-upload item headers with bad sizes), each from its own loopback source address, run concurrently; judged: child alive, sentinel answered within 8 s, user list and stats equal what the sentinel alone accounts for. non-trivial = a hostile connection whose handshake the server answered (control) or that presented a genuine reference number (transfer); distinct = distinct byte script"
+		x.rule = "one case = one child-process server + sentinel client + a batch of hostile connections (control: garbage, mutated handshakes, bad logins, logged-in guest/power clients sending 46 transaction types, a client holding the disconnect-users privilege naming user ids nobody holds (with/without ban options, odd id lengths) in disconnect / client-info / instant-message / invite requests, with hostile/plausible field mixes incl. the known panic triggers, cuts mid-transaction, logged-in clients that set their own name / icon / options / automatic reply to odd lengths and linger while the well-behaved client polls the user list every 120 ms; transfer port: garbage preambles, genuine reference numbers followed by corrupt flattened-file objects, short info forks, folder-download resume data of odd lengths, folder-upload item headers with bad sizes), each from its own loopback source address, run concurrently; judged: child alive, sentinel answered within 8 s, user list and stats equal what the sentinel alone accounts for. non-trivial = a hostile connection whose handshake the server answered (control) or that presented a genuine reference number (transfer); distinct = distinct byte script"
 		x.assume = []string{
 			"loopback TCP from 127.x.y.z source addresses stands for remote clients",
 			"memory exhaustion, scheduler fairness, goroutine pile-up behind a never-reading client and data races on non-map fields are not exhibited by this check (partial)",
@@ -758,13 +785,35 @@ func init() {
 					mu.Unlock()
 				}(i)
 			}
-			// a ping in the middle of the batch
-			if _, ok := sentinel.request(50, hotline.TranGetUserNameList, 8*time.Second); !ok && cs.alive() {
+			// the well-behaved client keeps asking for the user list while the batch runs: every request must be answered
+			pollStop, pollDone := make(chan struct{}), make(chan struct{})
+			var starved string
+			polls := 0
+			go func() {
+				defer close(pollDone)
+				for id := uint32(1000); ; id++ {
+					select {
+					case <-pollStop:
+						return
+					default:
+					}
+					if _, ok := sentinel.request(id, hotline.TranGetUserNameList, 8*time.Second); !ok {
+						starved = fmt.Sprintf("user-list request #%d of the well-behaved client got no reply", id-999)
+						return
+					}
+					polls++
+					time.Sleep(120 * time.Millisecond)
+				}
+			}()
+			wg.Wait()
+			close(pollStop)
+			<-pollDone
+			c.Note("sentinel_polls", polls)
+			if starved != "" && cs.alive() {
 				c.Note("sentinel_dead", sentinel.isDead())
 				c.Note("child_log", tail(cs.childLog(), 400000))
-				c.Violation("sentinel-starved", "the well-behaved client got no reply within 8 s while hostile connections were active")
+				c.Violation("sentinel-starved", "while hostile connections were active: "+starved)
 			}
-			wg.Wait()
 			// the never-reading client is still connected: the sentinel must still be served
 			if cs.alive() && !c.failed {
 				if _, ok := sentinel.request(52, hotline.TranGetUserNameList, 8*time.Second); !ok && cs.alive() {
